@@ -228,9 +228,9 @@ def work_policy(chunk, st, clauses):
             r = run(['-M', pm])
             st.execution(r.world, outcome=('delivery-make', name, r.status), root=root + ('make',), nontrivial=root, detail='light')
             made = open(pm).read() if os.path.exists(pm) else None
-            if made is None or r.status != mstatus:
+            if (made is None) != (text == '') or r.status != mstatus:      # (an SSH-1 peer gets a report, not a policy - under every delivery)
                 st.violation('delivery:no-policy-made:%s' % tag, dict(d, status=r.status, customary_status=mstatus, tail=r.stdout[-200:]))
-            elif _body(made) != _body(text):
+            elif made is not None and _body(made) != _body(text):
                 diff = [(a, b) for a, b in zip(_body(text), _body(made)) if a != b][:3]
                 st.violation('delivery:policy-made-differs:%s' % tag, dict(d, customary_vs_this=diff))
         if 'policy-verdict' in clauses:
